@@ -1,0 +1,63 @@
+//go:build verif
+
+// Contracts for the govc verifier (see /verif/DESIGN.md). Comment-only file: with the
+// "verif" build tag off it is not compiled; with it on it contains only the package clause.
+
+package reader
+
+// The metadata store's answer for an offset. For C02 (files equal the source tar for well-formed layers) it is ASSUMED
+// that the reported chunk contains the offset; for C04 (hostile TOC) nothing is assumed about it.
+// cstart/csize: the chunk table of a file as uninterpreted functions of the position asked for.
+//@ uf cstart(metadata.File, int) int
+//@ uf csize(metadata.File, int) int
+//@ func interface metadata.File.ChunkEntryForOffset
+//@   ensures ok ==> off == cstart(self, offset) && size == csize(self, offset)
+// well-formed chunk table (C02 only): the reported chunk contains the position, sizes are sane, and the chunk reported
+// for the end of a chunk starts exactly there (chunks are contiguous and do not overlap)
+//@ axiom[C02] forall f metadata.File, x int :: x >= 0 ==> 0 <= cstart(f, x) && cstart(f, x) <= x && x < cstart(f, x) + csize(f, x) && csize(f, x) <= 1<<40
+//@ axiom[C02] forall f metadata.File, x int :: x >= 0 ==> cstart(f, cstart(f, x) + csize(f, x)) == cstart(f, x) + csize(f, x)
+//@ func interface metadata.File.ReadAt
+//@   ensures 0 <= n && n <= len(p)
+//@   ensures[C02] n == len(p)
+//@ func interface cache.BlobCache.Get
+//@   ensures result1 == nil ==> result0 != nil
+//@ func interface cache.Reader.ReadAt
+//@   ensures 0 <= n && n <= len(p)
+//@ func fs/metrics/common.AddBytesCount
+//@   trusted
+//@   ensures true
+//@ func fs/metrics/common.IncOperationCount
+//@   trusted
+//@   ensures true
+// buffer pool and bytes.Buffer (assumed library contracts): the pool holds *bytes.Buffer; Grow(n) needs n >= 0 and makes
+// the capacity of the slice returned by Bytes() at least n
+//@ ghost bufCap map[ref]int
+//@ func sync.(*Pool).Get
+//@   trusted
+//@   ensures typeof(result) == tagof("*bytes.Buffer") && payload(result) != nil
+//@ func bytes.(*Buffer).Reset
+//@   trusted
+//@   ensures true
+//@ func bytes.(*Buffer).Grow
+//@   trusted
+//@   requires n >= 0
+//@   modifies bufCap[*]
+//@   ensures bufCap[ref(b)] >= n
+//@ func bytes.(*Buffer).Bytes
+//@   trusted
+//@   ensures cap(result) >= bufCap[ref(b)] && len(result) >= 0
+
+//@ func positive
+//@   props C02,C04
+//@   ensures[C02,C04] result == max(n, 0)
+
+// file.ReadAt assembles the requested range from chunks: the count never exceeds the buffer, every slice taken from
+// the caller's buffer and from the chunk buffer is in range, and the bytes of a chunk are placed at buffer position
+// (chunk start - offset) with the chunk's part below the requested offset discarded.
+//@ func (sf *file) ReadAt
+//@   props C02,C04
+//@   requires sf.fr != nil && sf.gr != nil && sf.gr.cache != nil && sf.gr.verifier != nil && 0 <= offset && offset < 1<<60
+//@   loop 0 invariant[C02,C04] 0 <= nr && nr <= len(p)
+//@   loop 0 invariant[C02] nr == 0 || nr == len(p) || cstart(sf.fr, offset + nr) == offset + nr
+//@   ensures[C02,C04] err == nil ==> 0 <= result0 && result0 <= len(p)
+//@   ensures[C02,C04] err != nil ==> result0 == 0
